@@ -10,115 +10,115 @@
    Definitions only (extracted).  Proofs: Mem/FileIdProofs.v. *)
 From ApolloVerif Require Import Base.Chars.
 
-Definition W64 : N := 18446744073709551616.   (* 2^64 : the counter is a u64, fetch_add wraps *)
-Definition TAGN : N := 9223372036854775808.   (* TAG = 1 << 63 *)
-Definition INITIAL : N := 3.
+Definition fi_W64 : N := 18446744073709551616.   (* 2^64 : the counter is a u64, fetch_add wraps *)
+Definition fi_TAGN : N := 9223372036854775808.   (* TAG = 1 << 63 *)
+Definition fi_INITIAL : N := 3.
 
-Inductive aop :=
-| AFetchAdd (d : N)        (* reg <- cell ; cell <- (cell + d) mod 2^64      NEXT.fetch_add(d) *)
-| ALoad                    (* reg <- cell                                     NEXT.load() *)
-| AStoreConst (v : N)      (* cell <- v                                       NEXT.store(v) *)
-| AStoreRegPlus (d : N).   (* cell <- (reg + d) mod 2^64                      NEXT.store(x + d), x the value last read *)
+Inductive fi_aop :=
+| FiFetchAdd (d : N)        (* reg <- cell ; cell <- (cell + d) mod 2^64      NEXT.fetch_add(d) *)
+| FiLoad                    (* reg <- cell                                     NEXT.load() *)
+| FiStoreConst (v : N)      (* cell <- v                                       NEXT.store(v) *)
+| FiStoreRegPlus (d : N).   (* cell <- (reg + d) mod 2^64                      NEXT.store(x + d), x the value last read *)
 
-Inductive cont :=
-| KNext                    (* continue with the next instruction *)
-| KRet                     (* return reg *)
-| KRetIfUntagged           (* if reg & TAG == 0 { return reg } else continue with the next instruction *)
-| KRetUnit                 (* return () *)
-| KGoto (pc : nat).        (* loop *)
+Inductive fi_cont :=
+| FiKNext                    (* continue with the next instruction *)
+| FiKRet                     (* return reg *)
+| FiKRetIfUntagged           (* if reg & TAG == 0 { return reg } else continue with the next instruction *)
+| FiKRetUnit                 (* return () *)
+| FiKGoto (pc : nat).        (* loop *)
 
-Record instr := mkI { i_op : aop; i_k : cont }.
-Definition program := list instr.
+Record fi_instr := FiI { fi_op : fi_aop; fi_k : fi_cont }.
+Definition fi_program := list fi_instr.
 
-Inductive call := CallNew | CallReset.
-Record programs := mkP { p_new : program; p_reset : program }.
-Definition prog_of (P : programs) (c : call) : program :=
-  match c with CallNew => p_new P | CallReset => p_reset P end.
+Inductive fi_call := FiCallNew | FiCallReset.
+Record fi_programs := FiP { fi_p_new : fi_program; fi_p_reset : fi_program }.
+Definition fi_prog_of (P : fi_programs) (c : fi_call) : fi_program :=
+  match c with FiCallNew => fi_p_new P | FiCallReset => fi_p_reset P end.
 
 (* t_ids: ids returned so far by this thread's FileId::new calls, most recent first *)
-Record thread := mkT { t_pc : nat; t_reg : N; t_todo : list call; t_ids : list N }.
-Record state := mkS { s_cell : N; s_threads : list thread }.
+Record fi_thread := FiT { fi_t_pc : nat; fi_t_reg : N; fi_t_todo : list fi_call; fi_t_ids : list N }.
+Record fi_state := FiS { fi_s_cell : N; fi_s_threads : list fi_thread }.
 
-Definition exec_op (o : aop) (cell reg : N) : N * N :=
+Definition fi_exec_op (o : fi_aop) (cell reg : N) : N * N :=
   match o with
-  | AFetchAdd d => ((cell + d) mod W64, cell)
-  | ALoad => (cell, cell)
-  | AStoreConst v => (v, reg)
-  | AStoreRegPlus d => ((reg + d) mod W64, reg)
+  | FiFetchAdd d => ((cell + d) mod fi_W64, cell)
+  | FiLoad => (cell, cell)
+  | FiStoreConst v => (v, reg)
+  | FiStoreRegPlus d => ((reg + d) mod fi_W64, reg)
   end.
 
-Definition untagged (x : N) : bool := N.land x TAGN =? 0.
+Definition fi_untagged (x : N) : bool := N.land x fi_TAGN =? 0.
 
-Definition finish_call (reg : N) (t : thread) (ret : option N) : thread :=
-  mkT 0 reg (tl (t_todo t)) (match ret with Some v => v :: t_ids t | None => t_ids t end).
+Definition fi_finish_call (reg : N) (t : fi_thread) (ret : option N) : fi_thread :=
+  FiT 0 reg (tl (fi_t_todo t)) (match ret with Some v => v :: fi_t_ids t | None => fi_t_ids t end).
 
 (* One instruction of thread t.  A thread with nothing to do, or whose pc is outside its program, does not
    move (a stuck thread never finishes; the generated programs end every path with a return or a goto). *)
-Definition step_thread (P : programs) (cell : N) (t : thread) : N * thread :=
-  match t_todo t with
+Definition fi_step_thread (P : fi_programs) (cell : N) (t : fi_thread) : N * fi_thread :=
+  match fi_t_todo t with
   | [] => (cell, t)
   | c :: _ =>
-    match nth_error (prog_of P c) (t_pc t) with
+    match nth_error (fi_prog_of P c) (fi_t_pc t) with
     | None => (cell, t)
     | Some i =>
-      let (cell', reg') := exec_op (i_op i) cell (t_reg t) in
+      let (cell', reg') := fi_exec_op (fi_op i) cell (fi_t_reg t) in
       (cell',
-       match i_k i with
-       | KNext => mkT (S (t_pc t)) reg' (t_todo t) (t_ids t)
-       | KRet => finish_call reg' t (Some reg')
-       | KRetIfUntagged =>
-           if untagged reg' then finish_call reg' t (Some reg')
-           else mkT (S (t_pc t)) reg' (t_todo t) (t_ids t)
-       | KRetUnit => finish_call reg' t None
-       | KGoto pc => mkT pc reg' (t_todo t) (t_ids t)
+       match fi_k i with
+       | FiKNext => FiT (S (fi_t_pc t)) reg' (fi_t_todo t) (fi_t_ids t)
+       | FiKRet => fi_finish_call reg' t (Some reg')
+       | FiKRetIfUntagged =>
+           if fi_untagged reg' then fi_finish_call reg' t (Some reg')
+           else FiT (S (fi_t_pc t)) reg' (fi_t_todo t) (fi_t_ids t)
+       | FiKRetUnit => fi_finish_call reg' t None
+       | FiKGoto pc => FiT pc reg' (fi_t_todo t) (fi_t_ids t)
        end)
     end
   end.
 
-Fixpoint upd {A} (i : nat) (x : A) (l : list A) : list A :=
+Fixpoint fi_upd {A} (i : nat) (x : A) (l : list A) : list A :=
   match l with
   | [] => []
-  | y :: r => match i with O => x :: r | S j => y :: upd j x r end
+  | y :: r => match i with O => x :: r | S j => y :: fi_upd j x r end
   end.
 
 (* the scheduler picks thread i *)
-Definition step (P : programs) (s : state) (i : nat) : state :=
-  match nth_error (s_threads s) i with
+Definition fi_step (P : fi_programs) (s : fi_state) (i : nat) : fi_state :=
+  match nth_error (fi_s_threads s) i with
   | None => s
-  | Some t => let (c', t') := step_thread P (s_cell s) t in mkS c' (upd i t' (s_threads s))
+  | Some t => let (c', t') := fi_step_thread P (fi_s_cell s) t in FiS c' (fi_upd i t' (fi_s_threads s))
   end.
 
-Definition run (P : programs) (s : state) (sched : list nat) : state := fold_left (step P) sched s.
+Definition fi_run (P : fi_programs) (s : fi_state) (sched : list nat) : fi_state := fold_left (fi_step P) sched s.
 
 (* every value the counter has during the run, initial value first *)
-Fixpoint cells (P : programs) (s : state) (sched : list nat) : list N :=
-  s_cell s :: match sched with [] => [] | i :: r => cells P (step P s i) r end.
+Fixpoint fi_cells (P : fi_programs) (s : fi_state) (sched : list nat) : list N :=
+  fi_s_cell s :: match sched with [] => [] | i :: r => fi_cells P (fi_step P s i) r end.
 
-Definition init_state (c0 : N) (todos : list (list call)) : state :=
-  mkS c0 (map (fun td => mkT 0 0 td []) todos).
+Definition fi_init_state (c0 : N) (todos : list (list fi_call)) : fi_state :=
+  FiS c0 (map (fun td => FiT 0 0 td []) todos).
 
-Definition all_ids (s : state) : list N := concat (map t_ids (s_threads s)).
+Definition fi_all_ids (s : fi_state) : list N := concat (map fi_t_ids (fi_s_threads s)).
 
-Definition finished (s : state) : bool := forallb (fun t => match t_todo t with [] => true | _ => false end) (s_threads s).
+Definition fi_finished (s : fi_state) : bool := forallb (fun t => match fi_t_todo t with [] => true | _ => false end) (fi_s_threads s).
 
 (* ---- the two oracles of the property, executable (used by the schedule search and by the tie) ---- *)
-Definition id_ok (x : N) : bool := (INITIAL <=? x) && (x <? TAGN).
+Definition fi_id_ok (x : N) : bool := (fi_INITIAL <=? x) && (x <? fi_TAGN).
 
-Fixpoint nodupb (l : list N) : bool :=
-  match l with [] => true | x :: r => negb (existsb (N.eqb x) r) && nodupb r end.
+Fixpoint fi_nodupb (l : list N) : bool :=
+  match l with [] => true | x :: r => negb (existsb (N.eqb x) r) && fi_nodupb r end.
 
 (* ---- schedule search: depth-first over schedules of length <= fuel for the threads of s, skipping choices
    that do not move.  [clean] = the counter stayed below 2^63 so far (the hypothesis of uniqueness).
    Returns the first schedule (in order) after which an id is reserved/tagged, or two ids coincide on a clean run. *)
-Definition state_bad (clean : bool) (s : state) : bool :=
-  negb (forallb id_ok (all_ids s)) || (clean && negb (nodupb (all_ids s))).
+Definition fi_state_bad (clean : bool) (s : fi_state) : bool :=
+  negb (forallb fi_id_ok (fi_all_ids s)) || (clean && negb (fi_nodupb (fi_all_ids s))).
 
-Definition thread_eqb (a b : thread) : bool :=
-  Nat.eqb (t_pc a) (t_pc b) && (t_reg a =? t_reg b) && Nat.eqb (length (t_todo a)) (length (t_todo b))
-  && Nat.eqb (length (t_ids a)) (length (t_ids b)).
+Definition fi_thread_eqb (a b : fi_thread) : bool :=
+  Nat.eqb (fi_t_pc a) (fi_t_pc b) && (fi_t_reg a =? fi_t_reg b) && Nat.eqb (length (fi_t_todo a)) (length (fi_t_todo b))
+  && Nat.eqb (length (fi_t_ids a)) (length (fi_t_ids b)).
 
-Fixpoint search (fuel : nat) (P : programs) (s : state) (clean : bool) (pref : list nat) : option (list nat) :=
-  if state_bad clean s then Some (rev pref) else
+Fixpoint fi_search (fuel : nat) (P : fi_programs) (s : fi_state) (clean : bool) (pref : list nat) : option (list nat) :=
+  if fi_state_bad clean s then Some (rev pref) else
   match fuel with
   | O => None
   | S f =>
@@ -126,16 +126,16 @@ Fixpoint search (fuel : nat) (P : programs) (s : state) (clean : bool) (pref : l
        match is with
        | [] => None
        | i :: rest =>
-         let s' := step P s i in
-         let moved := match nth_error (s_threads s) i, nth_error (s_threads s') i with
-                      | Some a, Some b => negb (thread_eqb a b && (s_cell s =? s_cell s'))
+         let s' := fi_step P s i in
+         let moved := match nth_error (fi_s_threads s) i, nth_error (fi_s_threads s') i with
+                      | Some a, Some b => negb (fi_thread_eqb a b && (fi_s_cell s =? fi_s_cell s'))
                       | _, _ => false end in
-         match (if moved then search f P s' (clean && (s_cell s' <? TAGN)) (i :: pref) else None) with
+         match (if moved then fi_search f P s' (clean && (fi_s_cell s' <? fi_TAGN)) (i :: pref) else None) with
          | Some r => Some r
          | None => try rest
          end
-       end) (seq 0 (length (s_threads s)))
+       end) (seq 0 (length (fi_s_threads s)))
   end.
 
-Definition search_from (fuel : nat) (P : programs) (c0 : N) (todos : list (list call)) : option (list nat) :=
-  search fuel P (init_state c0 todos) (c0 <? TAGN) [].
+Definition fi_search_from (fuel : nat) (P : fi_programs) (c0 : N) (todos : list (list fi_call)) : option (list nat) :=
+  fi_search fuel P (fi_init_state c0 todos) (c0 <? fi_TAGN) [].
